@@ -8,7 +8,7 @@ from ..astutil import (call_name, calls_in, const_value, find_func, is_self_attr
 from ..cfg import CFG
 from ..dataflow import inline_env
 from ..astutil import subst_names
-from ..domains import Interval, interval_eval
+from ..domains import Interval, interval_eval, TOP
 from ..frontend import AnalysisError, walk_function
 from ..nf import to_nf, NFUnsupported, RF
 from ..ordertable import parse_pred
@@ -253,28 +253,70 @@ def _fold(env):
 
 
 def _r1(ctx):
+    """Interval of everything effective_damage_sum can return, path by path: on each path through the function the locals get
+    intervals (min/max/clip semantics), a comparison of a local with a constant on the path refines its interval (so an explicit
+    if-chain clamps just like min(max(.)))), and the union over all returns must be exactly [0.3, 1]."""
     prog = ctx.prog
     ctx.rule("R-C11-1", floor=2, what="effective damage sum lies in [0.3, 1] for every input")
     f = prog.func(MINER + ":effective_damage_sum")
     consts = {}
+    seen = {}
+    for s in f.module.tree.body:          # module-level constants bound once
+        if isinstance(s, ast.Assign) and len(s.targets) == 1 and isinstance(s.targets[0], ast.Name):
+            seen[s.targets[0].id] = seen.get(s.targets[0].id, 0) + 1
+            c = const_value(s.value)
+            if isinstance(c, (int, float)) and not isinstance(c, bool):
+                consts[s.targets[0].id] = float(c)
+    consts = {k: v for k, v in consts.items() if seen[k] == 1}
     for s in f.node.body:
         if isinstance(s, ast.Assign) and isinstance(s.targets[0], ast.Name):
             c = const_value(s.value)
-            if isinstance(c, (int, float)):
+            if isinstance(c, (int, float)) and not isinstance(c, bool):
                 consts[s.targets[0].id] = float(c)
-    ret = [s for s in f.node.body if isinstance(s, ast.Return)]
-    if len(ret) != 1:
-        raise AnalysisError("effective_damage_sum: single return expected")
+    fold = _fold(consts)
     cfg = CFG(f.node)
-    env = inline_env(cfg, ret[0])
-    env.pop("__ambiguous__")
-    keep = {k: v for k, v in env.items() if k not in consts}
-    R = subst_names(ret[0].value, keep)
-    iv = interval_eval(R, {}, _fold(consts))
+    rets = [s for s in walk_function(f.node) if isinstance(s, ast.Return) and s.value is not None]
+    if not rets:
+        raise AnalysisError("effective_damage_sum: no return found")
+    lo, hi = None, None
+    npaths = 0
+    for path in cfg.paths(cfg.entry, {cfg.exit}, limit=512):
+        env = {}
+        out = None
+        for n, lab in path:
+            st = cfg.stmt[n]
+            if st is None:
+                continue
+            if cfg.kind[n] == "test" and isinstance(st, ast.If):
+                t = st.test
+                if isinstance(t, ast.Compare) and len(t.ops) == 1:
+                    for var, other, flip in ((t.left, t.comparators[0], False), (t.comparators[0], t.left, True)):
+                        c = fold(other)
+                        if isinstance(var, ast.Name) and var.id not in consts and c is not None:
+                            op = type(t.ops[0])
+                            if flip:
+                                op = {ast.Gt: ast.Lt, ast.GtE: ast.LtE, ast.Lt: ast.Gt, ast.LtE: ast.GtE}.get(op, op)
+                            cur = env.get(var.id, TOP)
+                            upper = (op in (ast.Lt, ast.LtE)) == bool(lab)       # the path constrains var from above
+                            if op in (ast.Gt, ast.GtE, ast.Lt, ast.LtE):
+                                cur = Interval(cur.lo, min(cur.hi, c)) if upper else Interval(max(cur.lo, c), cur.hi)
+                                env[var.id] = cur
+            elif cfg.kind[n] == "stmt" and isinstance(st, ast.Assign) and isinstance(st.targets[0], ast.Name):
+                env[st.targets[0].id] = interval_eval(st.value, env, fold)
+            elif cfg.kind[n] == "stmt" and isinstance(st, ast.Return) and st.value is not None:
+                out = interval_eval(st.value, env, fold)
+        if out is None:
+            continue
+        npaths += 1
+        lo = out.lo if lo is None else min(lo, out.lo)
+        hi = out.hi if hi is None else max(hi, out.hi)
+    if npaths == 0:
+        raise AnalysisError("effective_damage_sum: no path to a return")
+    iv = Interval(lo, hi)
     if iv == Interval(0.3, 1.0):
-        ctx.holds(f, ret[0], "interval of the returned value is [0.3, 1.0] for every input", {"expr": norm_text(R)})
+        ctx.holds(f, rets[0], "interval of the returned value over %d path(s) is [0.3, 1.0] for every input" % npaths)
     else:
-        ctx.violated(f, ret[0], "effective damage sum ranges over %s for arbitrary input; it must stay within [0.3, 1]" % iv)
+        ctx.violated(f, rets[0], "effective damage sum ranges over %s for arbitrary input; it must stay within [0.3, 1]" % iv)
     m = prog.func(MINER + ":MinerBase.effective_damage_sum")
     r = [s for s in m.node.body if isinstance(s, ast.Return)]
     ok = r and isinstance(r[0].value, ast.Call) and f.key in prog.resolve_call(m, r[0].value)
@@ -502,45 +544,59 @@ def _r4(ctx):
 
 
 def _r5(ctx):
+    """Decided on the symbolic value of MinerHaibach.lifetime_multiple (helper functions followed): total cycles divided by
+    the sum of two weighted power sums  dot(n[M], s[M]**e)  whose masks M1, M2 are complementary comparisons of the same
+    relative amplitude with the same knee value and select from the same count and amplitude vectors."""
+    from ..absint import Interp, TermDomain, term_walk
     prog = ctx.prog
     ctx.rule("R-C11-5", floor=3, what="full/reduced masks partition the classes; both sums use the same counts; numerator sums all")
     h = prog.func(MINER + ":MinerHaibach.lifetime_multiple")
-    masks = [s for s in h.node.body if isinstance(s, ast.Assign) and isinstance(s.value, ast.Compare)]
-    if len(masks) != 2:
-        raise AnalysisError("lifetime_multiple: two class masks expected, found %d" % len(masks))
-    atom = lambda e: norm_text(e)
-    p, q = parse_pred(masks[0].value, atom), parse_pred(masks[1].value, atom)
-    atoms = sorted(p.atoms | q.atoms)
-    tp, tq = p.table(atoms), q.table(atoms)
-    if len(atoms) == 2 and all(a != b for a, b in zip(tp, tq)):
-        ctx.holds(h, masks[1], "%s and %s are complementary on all %d orderings" %
-                  (norm_text(masks[0].value), norm_text(masks[1].value), len(tp)))
+    dom = TermDomain()
+    t = Interp(prog, dom, follow=lambda c: c.name not in ("_max_amplitude",) and c.cls is None).run(
+        h, [("p", q) for q in h.params if q != "self"])
+    if not (isinstance(t, tuple) and len(t) == 4 and t[:2] == ("op", "/")):
+        raise AnalysisError("lifetime_multiple: the returned value is not a quotient")
+    num, den = t[2], t[3]
+    dots = []
+    for z in term_walk(den):
+        if isinstance(z, tuple) and z[:2] == ("call", "np.dot") and len(z[2]) == 2 and z not in dots:
+            dots.append(z)
+    if len(dots) != 2:
+        raise AnalysisError("lifetime_multiple: two weighted sums np.dot(n[mask], s[mask]**e) expected in the denominator, found %d"
+                            % len(dots))
+
+    def masked(z):
+        """(vector, mask) of vector[mask], looking through a power"""
+        if isinstance(z, tuple) and len(z) == 4 and z[:2] == ("op", "**"):
+            z = z[2]
+        if isinstance(z, tuple) and len(z) == 3 and z[0] == "at":
+            return z[1], z[2]
+        return None, None
+    parts = []
+    for d_ in dots:
+        (n_vec, n_mask), (s_vec, s_mask) = masked(d_[2][0]), masked(d_[2][1])
+        if n_vec is None or s_vec is None:
+            raise AnalysisError("lifetime_multiple: operands of %r are not masked vectors" % (d_[:2],))
+        parts.append((n_vec, n_mask, s_vec, s_mask))
+    (n1, m1, s1, ms1), (n2, m2, s2, ms2) = parts
+    if m1 == ms1 and m2 == ms2 and n1 == n2 and s1 == s2:
+        ctx.holds(h, h.node, "both masks select from the same amplitude and count vectors")
     else:
-        ctx.violated(h, masks[1], "class masks %s and %s do not partition the classes (a class at the knee is counted "
-                     "twice or not at all)" % (norm_text(masks[0].value), norm_text(masks[1].value)))
-    mnames = [m.targets[0].id for m in masks]
-    counts = {}
-    for s in h.node.body:
-        if isinstance(s, ast.Assign) and isinstance(s.value, ast.Subscript) and isinstance(s.value.slice, ast.Name) \
-                and s.value.slice.id in mnames and isinstance(s.value.value, ast.Name):
-            counts.setdefault(s.value.slice.id, []).append(s.value.value.id)
-    srcs = [tuple(sorted(v)) for v in counts.values()]
-    if len(counts) == 2 and srcs[0] == srcs[1] and len(srcs[0]) == 2:
-        ctx.holds(h, masks[0], "both masks select from the same amplitude and count vectors %s" % (srcs[0],))
+        ctx.violated(h, h.node, "the two class masks are applied to different vectors (counts %s, amplitudes %s, mask pairing %s)" %
+                     ("equal" if n1 == n2 else "differ", "equal" if s1 == s2 else "differ",
+                      "consistent" if (m1 == ms1 and m2 == ms2) else "inconsistent"), text="mask sources")
+    if dom.negate(m1) == m2 or dom.negate(m2) == m1:
+        ctx.holds(h, h.node, "the two class masks are complementary comparisons of the same quantities")
     else:
-        ctx.violated(h, masks[0], "the two class masks are applied to different vectors: %s" % counts, text="mask sources")
-    ret = [s for s in h.node.body if isinstance(s, ast.Return)][-1]
-    num = ret.value.left if isinstance(ret.value, ast.BinOp) and isinstance(ret.value.op, ast.Div) else None
-    cyc = [s for s in h.node.body if isinstance(s, ast.Assign) and isinstance(s.value, ast.Attribute)
-           and s.value.attr == "cycles"]
-    ok = num is not None and isinstance(num, ast.Call) and isinstance(num.func, ast.Attribute) and num.func.attr == "sum" \
-        and isinstance(num.func.value, ast.Name) and cyc and num.func.value.id == cyc[0].targets[0].id
-    den = ret.value.right if num is not None else None
-    ok = ok and isinstance(den, ast.BinOp) and isinstance(den.op, ast.Add)
+        ctx.violated(h, h.node, "class masks %r and %r do not partition the classes (a class at the knee is counted twice or not at all)"
+                     % (m1[:2] if isinstance(m1, tuple) else m1, m2[:2] if isinstance(m2, tuple) else m2), text="mask partition")
+    ok = isinstance(num, tuple) and num[:1] == ("m",) and num[2] == "sum" and num[1] == n1 and \
+        isinstance(den, tuple) and den[:2] == ("op", "+")
     if ok:
-        ctx.holds(h, ret, "lifetime multiple = total cycles / (full sum + reduced sum)")
+        ctx.holds(h, h.node, "lifetime multiple = total cycles / (full sum + reduced sum)")
     else:
-        ctx.violated(h, ret, "lifetime multiple is %s; expected total cycles over the sum of both damage parts" % norm_text(ret.value))
+        ctx.violated(h, h.node, "lifetime multiple is not the total of the cycle counts used in the sums over the sum of both damage "
+                     "parts", text="numerator")
 
 
 # =========================================================================== variants
